@@ -110,9 +110,9 @@ func wideItems(f *corpus.Fam, validOnly bool, fn func(it *corpus.Item, src, why 
 // chainPrograms: postfix chains (see corpus/chains.go), length by tier.
 func chainPrograms(c *core.Ctx) []string {
 	if c.Thorough() {
-		return corpus.ChainPrograms(5)
+		return corpus.ChainPrograms(6)
 	}
-	return corpus.ChainPrograms(4)
+	return corpus.ChainPrograms(5)
 }
 
 // validItems: corpus programs the reference driver accepts (on the tokens the real scanner produced).
